@@ -594,6 +594,8 @@ def _one(rng, tier, fn, src=None):
                 "explicit": rng.random() < 0.7}
     if fn == "strip":
         ek, mk, lo = _pick_container(rng, fn)
+        if ek == "obj" and rng.random() < 0.4:
+            ek = "unh"        # fresh, equal-but-not-identical objects: == must be used, not `is`
         return {"fn": fn, "ek": ek, "mk": mk, "src": get_src(lo), "which": rng.choice("lrb"),
                 "v": lo + rng.randrange(3), "explicit": rng.random() < 0.7}
     if fn in ("unique", "redundant"):
